@@ -256,9 +256,11 @@ def run_point_case(case):
                 res["viol"].append(viol("evaluated_sample_outside", "%s of a %s point in %d-D: samples %s, the point is %s" %
                                         (name, kind, d, got[:2].round(5).tolist(), want.round(5).tolist()), target="interior", **m2))
             if kind != "product":
-                q = np.stack([want, want[::-1] if np.abs(want - want[::-1]).max() > 1e-3 else want + 0.5, np.full(d, want[0])]).astype(np.float32)
+                # the library's Point accepts points within 1e-3 (absolute): the far queries differ by at least 0.05
+                third = np.full(d, want[0]) if np.abs(np.full(d, want[0]) - want).max() > 0.05 else want + np.array([0.3] + [0.0] * (d - 1))
+                q = np.stack([want, want[::-1] if np.abs(want - want[::-1]).max() > 0.05 else want + 0.5, third]).astype(np.float32)
                 inside = Dq._contains(tp.spaces.Points(torch.tensor(q), X)).reshape(-1).bool().numpy()
-                exp = np.array([True, False, bool(np.abs(np.full(d, want[0]) - want).max() < 1e-6)])
+                exp = np.array([True, False, False])
                 res["judged"] += 3
                 if (inside != exp).any():
                     res["viol"].append(viol("evaluated_membership_differs", "%s of a %s point %s in %d-D: membership of %s is %s, expected %s" %
